@@ -49,8 +49,17 @@ class Clock:
     def time(self):
         return self.t
 
+    def monotonic(self):                   # every clock the library might read is the virtual one
+        return self.t
+
+    def perf_counter(self):
+        return self.t
+
     def sleep(self, s):
         pass
+
+    def __getattr__(self, name):           # anything else (strftime, ...) is the real module's
+        return getattr(_real_time, name)
 
 
 class StubEvent:
@@ -84,7 +93,12 @@ class StubThread:
             cb()
 
 
-class StubThreading:
+class _StubThreadingMeta(type):
+    def __getattr__(cls, name):            # everything but Thread and Event is the real thing (Lock, RLock, current_thread, ...)
+        return getattr(_real_threading, name)
+
+
+class StubThreading(metaclass=_StubThreadingMeta):
     Thread = StubThread
     Event = StubEvent
 
